@@ -68,8 +68,10 @@ class Gen:
         """a control value: number, map symbol, or a live object"""
         r, s = self.r, self.s
         k = r.random()
-        if k < 0.6:
+        if k < 0.56:
             return self.num()
+        if k < 0.6:
+            return VNONE                      # None as a control value is sent as int 0
         if k < 0.7 and s.live_buses():
             return {'v': 'bus', 'i': r.choice(s.live_buses())}
         if k < 0.8 and s.live_bufs():
@@ -83,7 +85,9 @@ class Gen:
     def cvalue(self, depth=0):
         r = self.r
         if depth < 2 and r.random() < 0.25:
-            items = [self.cvalue(depth + 1) for _ in range(r.choice([1, 2, 3]))]
+            items = [self.cvalue(depth + 1) for _ in range(r.choice([0, 1, 2, 3]))]
+            if r.random() < 0.1:
+                items.append(vs(r.choice(['', 'x'])))    # strings (also the empty one) are legal array elements
             return vl(items) if r.random() < 0.8 else vt(items)
         return self.scalar()
 
@@ -152,6 +156,9 @@ class Gen:
 
     # ---- ops ----------------------------------------------------------------------
     def emit(self, op):
+        if op['op'] in ('synth', 'n_set', 'n_setn', 'b_setn', 'bus_setn', 'b_sine1') and self.r.random() < 0.15:
+            op = dict(op, then_mutate=True)      # the caller changes his own list / dict arguments after the call
+            self.tags.add('args-mutated-after-call')
         self.ops.append(op)
 
     def op_synth(self):
@@ -245,7 +252,7 @@ class Gen:
         elif k == 'n_fill':
             args = []
             for _ in range(r.randint(1, 3)):
-                args += [self.ctl(), vi(r.randint(1, 4)), self.num()]
+                args += [self.ctl(), vi(r.randint(0, 4)), self.num()]
             self.emit({'op': k, 'n': n, 'args': args})
         elif k == 'n_release':
             t = r.choice([None, vi(0), vi(2), vi(-1), vf(Fraction(5, 2)), vf(Fraction(-1, 2)), vf(0)])
@@ -292,10 +299,15 @@ class Gen:
     def op_buf_new(self):
         r, s = self.r, self.s
         k = r.choice(['b_new'] * 4 + ['b_consecutive', 'b_new_read', 'b_new_read_channel', 'b_new_cue', 'b_new_noalloc'])
-        frames = r.choice([1, 8, 16, 1024, 32768])
+        frames = r.choice([0, 1, 8, 16, 1024, 32768])
         ch = r.choice([1, 1, 2, 4])
+        explicit = lambda: r.choice([0, 0, 7, 100]) if r.random() < 0.15 else None
         if k == 'b_new':
-            self.emit({'op': k, 'frames': frames, 'channels': ch, 'compl': self.compl()})
+            op = {'op': k, 'frames': frames, 'channels': ch, 'compl': self.compl()}
+            bn = explicit()
+            if bn is not None:
+                op['bufnum'] = bn; self.tags.add('explicit-bufnum')
+            self.emit(op)
             s.bufs.append({'freed': False, 'stale': False})
         elif k == 'b_new_noalloc':
             self.emit({'op': 'b_new', 'frames': frames, 'channels': ch, 'compl': None, 'alloc': False})
@@ -303,12 +315,20 @@ class Gen:
             self.emit({'op': 'b_alloc', 'b': len(s.bufs) - 1, 'compl': self.compl()})
         elif k == 'b_consecutive':
             n = r.randint(1, 4)
-            self.emit({'op': k, 'n': n, 'frames': frames, 'channels': ch, 'compl': self.compl()})
+            op = {'op': k, 'n': n, 'frames': frames, 'channels': ch, 'compl': self.compl()}
+            bn = explicit()
+            if bn is not None:
+                op['bufnum'] = bn; self.tags.add('explicit-bufnum')
+            self.emit(op)
             for _ in range(n):
                 s.bufs.append({'freed': False, 'stale': False})
             self.tags.add('consecutive')
         elif k == 'b_new_read':
-            self.emit({'op': k, 'path': r.choice(PATHS), 'start': r.choice([0, 0, 100]), 'frames': r.choice([-1, -1, 512])})
+            op = {'op': k, 'path': r.choice(PATHS), 'start': r.choice([0, 0, 100]), 'frames': r.choice([-1, -1, 0, 512])}
+            bn = explicit()
+            if bn is not None:
+                op['bufnum'] = bn; self.tags.add('explicit-bufnum')
+            self.emit(op)
             s.bufs.append({'freed': False, 'stale': False})
         elif k == 'b_new_read_channel':
             self.emit({'op': k, 'path': r.choice(PATHS), 'start': r.choice([0, 100]), 'frames': r.choice([-1, 512]),
@@ -409,7 +429,10 @@ class Gen:
         if k == 'bus_new' or (not lc and k not in ('bus_free',)):
             audio = r.random() < 0.35
             ch = r.choice([1, 1, 2, 3, 4])
-            self.emit({'op': 'bus_new', 'audio': audio, 'channels': ch})
+            op = {'op': 'bus_new', 'audio': audio, 'channels': ch}
+            if r.random() < 0.15:
+                op['index'] = r.choice([0, 0, 3, 64]); self.tags.add('explicit-bus-index')
+            self.emit(op)
             s.buses.append({'audio': audio, 'freed': False, 'ch': ch})
             return
         if k == 'bus_free':
@@ -554,7 +577,7 @@ class Gen:
             if s.depth > 0 and k < 0.22:
                 if r.random() < 0.35:
                     kk = r.randint(1, s.depth)
-                    self.emit({'op': 'bind_raise', 'k': kk})
+                    self.emit({'op': 'bind_raise', 'k': kk, 'base': r.random() < 0.3})
                     s.depth -= kk
                     self.tags.add('bind-raise')
                 else:
@@ -596,4 +619,6 @@ class Gen:
 def gen_history(rng, cls='valid', n_ops=None):
     g = Gen(rng, cls)
     ops = g.gen(n_ops or rng.choice([4, 8, 12, 20, 30]))
-    return {'cls': cls, 'ops': ops, 'tags': sorted(g.tags)}
+    # Server.latency: the time of the bundle a bind() block sends and of release(); 0 is the NRT default
+    lat = rng.choice([None, None, '0', '1/4', '1'])
+    return {'cls': cls, 'ops': ops, 'tags': sorted(g.tags), 'latency': lat}
